@@ -9,12 +9,26 @@ Definition check_case : wcase -> bool := wcheck_obs.
 (* a fault or an unsatisfied required point fails the start with an error, no runner runs; optional points never fail *)
 Definition oracle_base (c : wcase) : bool := oracle_clean_outcome c && oracle_faults c.
 
+(* "optional ones never do": when nothing substitutes components, no fault is injected, every REQUIRED point of every
+   component (post-processor components included) has a provider and every required configuration value is
+   configured, the start succeeds - optional points and optional values may be empty, whatever else their tags carry
+   (further arguments before and after required=false, the prop shorthand).  From the scenario's static data and
+   the observed outcome only. *)
+Definition all_required_satisfiable (c : wcase) : bool :=
+  forallb (fun h =>
+    forallb (fun kp => negb (pt_required (snd kp))
+                       || negb (Nat.eqb (length (providers c h (snd kp))) 0)) (points_of c h)
+    && cfg_ok c h) (all_names c).
+
+Definition oracle_optional_never_fails (c : wcase) : bool :=
+  if no_substitution c && no_faults c && all_required_satisfiable c then ok_start c else true.
+
 (* post-processor components are eagerly created components too, so every eager holder is examined.  On the
    unchanged tree this fails for the components created in PrepareComponents before the built-in wire /
    further-matching processors are active — a user post-processor component and what it requests —: their points
    are populated by the processors active at that moment only, required points are not examined (KF-C05a). *)
 Definition oracle_case (c : wcase) : bool :=
-  oracle_base c && match bad_holders c with [] => true | _ :: _ => false end.
+  oracle_base c && match bad_holders c with [] => true | _ :: _ => false end && oracle_optional_never_fails c.
 
 (* cases that fail ONLY in the class of KF-C05a: every offending holder was created during PrepareComponents; or
    the start panicked and such a holder has a by-name point naming a component that does not exist (the nil
